@@ -4,7 +4,7 @@ from harness.props import base
 
 PROP = {
     "id": "C12",
-    "quick_n": 300,
+    "quick_n": 450,
     "thorough_n": 8000,
     "rule": "one program = a single-path tree (Bin, SparselyBin, CentrallyBin, IrregularlyBin, "
             "Categorize, Select nested over any leaf) whose quantities at random depths are "
